@@ -400,4 +400,25 @@ example (n : Nat) (s : State TaskId) (hr : Reachable (graphOf twinProj) n s) :
   exact ⟨fun i hi => test_starts_after_its_dependencies twinProj_valid hsv ht (d := ["orders", "prepare"]) (by decide) n s hr i hi,
     fun hm => test_runs_only_if_dependencies_succeeded twinProj_valid hsv ht (d := ["orders", "prepare"]) (by decide) n s hr hm⟩
 
+/-- suite `a` holds the TEST `login` and the SUB-SUITE `login` (setup hook, one test `t`): a legal tree — `Valid` asks the
+    names of sibling suites to be distinct and the names of the tests of one suite to be distinct, separately (so does
+    the loader); a task is identified by its KIND and its path -/
+def homonymProj : Proj :=
+  { fixtures := []
+    suites :=
+      [ .mk "a" 0 false none none none none [] [tst "login" []]
+          [ .mk "login" 0 false (some ⟨[], []⟩) none none none [] [tst "t" []] [] ] ]
+    nbThreads := 2, forceDisabled := false, stopOnFailure := false }
+
+theorem homonymProj_valid : Valid homonymProj :=
+  ⟨by decide, by decide, by decide, by decide, ⟨fun _ => 0, by decide⟩⟩
+
+/-- the test `a.login` and the tasks of the suite `a.login` are different tasks; the sub-suite's test waits for the
+    sub-suite's own setup task, the homonymous test does not -/
+example : (graphOf homonymProj).tasks.filter (fun t => t.path == ["a", "login"]) =
+    [⟨.test, ["a", "login"]⟩, ⟨.begin, ["a", "login"]⟩, ⟨.init, ["a", "login"]⟩, ⟨.teardown, ["a", "login"]⟩,
+     ⟨.end_, ["a", "login"]⟩] ∧
+    (graphOf homonymProj).succDeps ⟨.test, ["a", "login", "t"]⟩ = [⟨.init, ["a", "login"]⟩] ∧
+    (graphOf homonymProj).succDeps ⟨.test, ["a", "login"]⟩ = [⟨.begin, ["a"]⟩] := by decide
+
 end LccModel.C01Graph
